@@ -732,6 +732,91 @@ def _run_programs(col, pp, check, n_quick, n_thorough, prof, tag):
     core.run_property(col, t, core.budget(n_quick, n_thorough, col.tier), tag=tag)
 
 
+# ---- C01: transfer steps of a baked recipe conserve every substance and touch only the wells they address ----------
+
+def check_c01(col, pp, cfg, prog):
+    col.case()
+    col.label('recipe')
+    steps = real_steps(prog)
+    if any(s['op'] != 'transfer' for s in steps) or not steps:
+        col.exclude('recipe with steps other than transfers')
+        return
+    world = bench.World(pp, subs_json=prog['subs'])
+    ref = world.ref
+    rr = run_recipe(pp, world.real, prog)
+    if rr.results is None:
+        exc = rr.add_exc[1] if rr.add_exc else rr.bake_exc
+        col.label(f"recipe-refused:{type(exc).__name__}")
+        return
+    col.label('recipe:baked')
+    init = {o['name']: bench.view(make_declared(pp, world.real, o), pp) for o in prog['objects']}
+    final = {k: bench.view(v, pp) for k, v in rr.results.items()}
+    if set(init) != set(final):
+        col.report('recipe/transfer-only/result-names-differ', {'declared': sorted(init), 'results': sorted(final)}, _prog_case(prog))
+        return
+
+    def totals(views):
+        t, biggest = {}, {}
+        for v in views.values():
+            for _, w in wells_of(v):
+                for n, a in w['contents']:
+                    t[n] = t.get(n, 0.0) + a
+                    biggest[n] = max(biggest.get(n, 0.0), abs(a))
+        return t, biggest
+    before, big = totals(init)
+    after, _ = totals(final)
+    # wells addressed by some step (reference resolver); the pairs one step makes bound the number of rounded stores
+    addressed, pairs = set(), 0
+    sub_sel = False
+    for s in steps:
+        n_side = []
+        for side in (s['src'], s['dst']):
+            v = init[side['o']]
+            if v['k'] == 'c':
+                addressed.add((side['o'], None))
+                n_side.append(1)
+            else:
+                sel = side.get('sel') or {'t': 'plate'}
+                sub_sel = sub_sel or sel.get('t') == 'sub'
+                coords, _shape = rsel.resolve(sel, v['rows'], v['cols'])
+                addressed.update((side['o'], tuple(rc)) for rc in coords)
+                n_side.append(len(coords))
+        pairs += max(n_side)
+    if sub_sel:
+        col.label('recipe:slice-of-a-slice-operand')
+    for n in set(before) | set(after):
+        g = world.cfg.grain
+        tol = (2 * pairs + 2) * g + 64 * pairs * abs(big.get(n, 0.0)) * 2.3e-16
+        if abs(before.get(n, 0.0) - after.get(n, 0.0)) > tol:
+            col.report(f"recipe/not-conserved/{ref.subs[n].kind}", {'substance': n, 'before': before.get(n, 0.0),
+                                                                    'after': after.get(n, 0.0), 'tol': tol}, _prog_case(prog))
+    for name, v in init.items():
+        fw = dict(wells_of(final[name]))
+        for coord, w in wells_of(v):
+            if (name, coord) in addressed:
+                continue
+            a = fw.get(coord)
+            if a is None or a['contents'] != w['contents'] or a['vol'] != w['vol']:
+                col.report('recipe/unaddressed-well-changed', {'object': name, 'well': coord, 'before': w['contents'],
+                                                                'after': a and a['contents']}, _prog_case(prog))
+                return
+    plates = sum(1 for v in init.values() if v['k'] == 'p')
+    if plates and len(steps) >= 2:
+        col.nontrivial_key(f"recipe|{len(steps)}|{plates}|{sub_sel}")
+        col.sample(lambda: {'objects': prog['objects'], 'steps': prog['steps']})
+
+
+def run_c01(col, pp):
+    prof = {'max_steps': 6, 'max_dim': 3, 'sub_one_in': 3, 'n_plates': (1, 2),
+            'weights': {'transfer': 8, 'create_container': 0, 'solution': 0, 'solution_from': 0, 'remove': 0, 'dilute': 0,
+                        'fill_to': 0}}
+    _run_programs(col, pp, check_c01, 80, 1000, prof, 'recipe')
+
+
+def replay_c01(col, pp, case):
+    check_c01(col, pp, RefCfg(), case)
+
+
 # ---- C04: objects handed to a recipe are unchanged by declaring, adding steps and baking -----------------------
 
 def check_c04(col, pp, cfg, prog):
